@@ -375,6 +375,15 @@ func TestVerifC17(t *testing.T) {
 	if rejected*5 > n {
 		t.Fatalf("%d of %d generated configurations were rejected by config.Parse", rejected, n)
 	}
+	// LAST (a blocked prepareMu would block every later case): Apply concurrent with another interface's Prepare,
+	// in real time outside the bubbles
+	if id := "c17-stress-0"; only == "" || only == id {
+		iters := 1500
+		if race {
+			iters = 100 // the race detector slows every lock operation down; the watchdog is in real time
+		}
+		c17Stress(out, id, iters)
+	}
 }
 
 type c17Env struct {
